@@ -72,6 +72,22 @@ def construct(m, meta):
                         bad += 1; problems.append((name + " altered its operand", repr(r)))
                     if name in ("update", "|") and snapshot(res)[1].get(type(x)._RENDER_CLS) != (x.a, x.b):
                         bad += 1; problems.append((name + ": the namespace given does not win", repr(res), repr(x)))
+            # convert(): to every class of the tree and to the root - a new set of the TARGET class holding, for each class with
+            # arguments that the target knows, this set's namespace if it has one, else the default; unrelated classes are rejected
+            if r is not None:
+                for T in cls + [Renderable]:
+                    related = issubclass(T, r.render_cls) or issubclass(r.render_cls, T)
+                    try:
+                        res = r.convert(T); err = None
+                    except ValueError as e:
+                        res = None; err = e
+                    if (res is not None) != related:
+                        bad += 1; problems.append(("convert", r.render_cls.__name__, "->", T.__name__, "related:", related, "result:", repr(err or res)))
+                    elif res is not None:
+                        mine = snapshot(r)[1]
+                        exp_c = (T, {A: mine.get(A, (0, 0)) for A in anc(T)})
+                        if snapshot(res) != exp_c:
+                            bad += 1; problems.append(("convert", repr(r), "->", T.__name__, "gives", repr(snapshot(res)), "expected", repr(exp_c)))
             # `|` between a namespace and a set: accepted exactly when one class descends from the other (whether or not the set's
             # class has a namespace of its own), and then equal to the constructor's result for the more derived class
             if r is not None:
